@@ -1,6 +1,303 @@
-//! C10 — stub (not yet implemented; not registered in MANIFEST.json).
-use crate::fw::{CheckDef, Ctx};
+//! C10 — converted reports convert every amount or fail.
 
-pub const DEF: CheckDef = CheckDef { id: "C10", run, technique: "stub", rule: "stub", assumptions: &[], shards: 0, hang_s: 20, single_worker: false };
+use chrono::NaiveDate;
+use okane_core::report::query::{BalanceQuery, Conversion, ConversionStrategy, DateRange};
 
-fn run(_ctx: &mut Ctx) {}
+use super::c09::{refprice_q, GFact};
+use crate::fw::{CheckDef, Ctx, Outcome};
+use crate::oka::{self, Balances};
+use crate::q::{qmap_add, qmap_show, QMap, Q};
+
+pub const DEF: CheckDef = CheckDef {
+    id: "C10",
+    run,
+    technique: "exhaustive enumeration of all ledgers of up to 3 transactions over an 8-transaction alphabet carrying holdings and price facts x target-precision contexts x targets x conversion strategies x report dates x date ranges; `Ledger::balance` with conversion runs on the real code and is compared with reference holdings converted by the brute-force price reference",
+    rule: "case = (precision of T, sequence of <= 3 (thorough 4) transactions from an 8-transaction alphabet over accounts {P,Q}, commodities {A,B,T} with costs giving direct, reverse-only and two-hop price chains); inside a case every target {A,B,T} x strategy {up-to-date at d1, d2, d3+1; historical} x 9 date ranges is queried, and the whole ledger is also run with all amounts x3 (linearity). states = distinct ledgers, transitions = converted balance queries compared. MUST: expected = sum of holdings (up-to-date: per account/commodity in range, at `now`; historical: per posting at its transaction date) converted by RefPrices, rounded only to the target's declared precision; MUST-FAIL iff a non-zero needed amount has no rate",
+    assumptions: &[
+        "price chains in the alphabet are unique for every needed pair; a query whose reference accept-set has more than one rate is DON'T-CARE",
+        "values compared with relative tolerance 1e-13 (reciprocal rates are 28-digit decimals; exact rational difference when it fits 128 bits); when the target has a declared precision the result must be a multiple of it within half a unit of the exact value",
+    ],
+    shards: 64,
+    hang_s: 30,
+    single_worker: false,
+};
+
+const NAMES: [&str; 3] = ["A", "B", "T"];
+const D1: u32 = 10;
+const D2: u32 = 15;
+const D3: u32 = 20;
+
+#[derive(Clone)]
+struct Post {
+    acct: &'static str,
+    /// integer numerator over 1000 (so that scaling by 3 stays exact), commodity index
+    milli: i64,
+    com: usize,
+    /// cost: (rate as text, rate as Q, commodity)
+    cost: Option<(&'static str, usize)>,
+}
+
+#[derive(Clone)]
+struct T {
+    day: u32,
+    ps: Vec<Post>,
+}
+
+fn p(acct: &'static str, milli: i64, com: usize) -> Post {
+    Post { acct, milli, com, cost: None }
+}
+fn pc(acct: &'static str, milli: i64, com: usize, rate: &'static str, rc: usize) -> Post {
+    Post { acct, milli, com, cost: Some((rate, rc)) }
+}
+
+fn alphabet() -> Vec<T> {
+    vec![
+        T { day: D1, ps: vec![p("P", 10_000, 0), p("Q", -10_000, 0)] },
+        T { day: D1, ps: vec![pc("P", 1_000, 0, "2", 2), p("Q", -2_000, 2)] },
+        T { day: D2, ps: vec![pc("P", 1_000, 0, "3", 2), p("Q", -3_000, 2)] },
+        T { day: D2, ps: vec![pc("P", 4_000, 1, "0.5", 0), p("Q", -2_000, 0)] },
+        T { day: D3, ps: vec![p("P", 2_000, 1), p("Q", -2_000, 1)] },
+        T { day: D1, ps: vec![p("P", 1_500, 2), p("Q", -1_500, 2)] },
+        T { day: D3, ps: vec![pc("Q", 3_000, 0, "1.255", 2), p("P", -3_765, 2)] },
+        T { day: D2, ps: vec![pc("P", 5_000, 1, "7", 2), p("Q", -35_000, 2)] },
+    ]
+}
+
+fn fmt_milli(m: i64) -> String {
+    Q::new(m as i128, 1000).to_string()
+}
+
+fn render(tprec: Option<u32>, seq: &[&T], mult: i64) -> String {
+    let mut s = String::new();
+    // declare all commodities so that -X works even when one is never used
+    s.push_str("commodity A\n\ncommodity B\n\ncommodity T\n");
+    if let Some(dp) = tprec {
+        let f = if dp == 0 { "1".to_string() } else { format!("1.{}", "0".repeat(dp as usize)) };
+        s.push_str(&format!("  format {} T\n", f));
+    }
+    s.push('\n');
+    for (i, t) in seq.iter().enumerate() {
+        s.push_str(&format!("2024/01/{:02} t{}\n", t.day, i));
+        for po in &t.ps {
+            s.push_str(&format!("  {}  {} {}", po.acct, fmt_milli(po.milli * mult), NAMES[po.com]));
+            if let Some((r, rc)) = po.cost {
+                s.push_str(&format!(" @ {} {}", r, NAMES[rc]));
+            }
+            s.push('\n');
+        }
+        s.push('\n');
+    }
+    s
+}
+
+fn day(d: u32) -> NaiveDate {
+    oka::date(2024, 1, d)
+}
+
+type Range = (Option<u32>, Option<u32>);
+fn ranges() -> Vec<Range> {
+    vec![(None, None), (Some(D1), None), (Some(D2), None), (None, Some(D2)), (None, Some(D3)), (Some(D2), Some(D3)), (Some(D1), Some(D1)), (Some(D3), Some(D3 + 1)), (Some(D3 + 1), None)]
+}
+fn in_range(d: u32, r: Range) -> bool {
+    r.0.map(|s| d >= s).unwrap_or(true) && r.1.map(|e| d < e).unwrap_or(true)
+}
+
+#[derive(Clone, Copy, Debug, PartialEq)]
+enum Strat {
+    UpToDate(u32),
+    Historical,
+}
+
+enum Expect {
+    Fail,
+    Value(Balances),
+    DontCare,
+}
+
+/// Reference result of `balance -X target`.
+fn reference(seq: &[&T], mult: i64, target: usize, strat: Strat, range: Range) -> Expect {
+    let facts: Vec<GFact> = seq.iter().flat_map(|t| t.ps.iter().filter_map(move |po| po.cost.map(|(r, rc)| GFact { date: t.day, x: po.com, y: rc, rate: Q::parse(r), db: false }))).collect();
+    let mut tie = false;
+    let mut convert = |com: usize, v: Q, at: u32| -> Option<Q> {
+        if com == target {
+            return Some(v);
+        }
+        let acc = refprice_q(3, &facts, com, target, at)?;
+        if acc.len() > 1 {
+            tie = true;
+        }
+        Some(v.mul(acc[0]))
+    };
+    let mut out = Balances::new();
+    match strat {
+        Strat::Historical => {
+            for t in seq {
+                if !in_range(t.day, range) {
+                    continue;
+                }
+                for po in &t.ps {
+                    let v = Q::new((po.milli * mult) as i128, 1000);
+                    match convert(po.com, v, t.day) {
+                        Some(c) => qmap_add(out.entry(po.acct.to_string()).or_default(), NAMES[target], c),
+                        None => return Expect::Fail,
+                    }
+                }
+            }
+        }
+        Strat::UpToDate(now) => {
+            let mut hold: Balances = Balances::new();
+            for t in seq {
+                if !in_range(t.day, range) {
+                    continue;
+                }
+                for po in &t.ps {
+                    qmap_add(hold.entry(po.acct.to_string()).or_default(), NAMES[po.com], Q::new((po.milli * mult) as i128, 1000));
+                }
+            }
+            for (acct, m) in &hold {
+                for (c, v) in m {
+                    if v.is_zero() {
+                        continue;
+                    }
+                    let ci = NAMES.iter().position(|n| n == c).unwrap();
+                    match convert(ci, *v, now) {
+                        Some(x) => qmap_add(out.entry(acct.clone()).or_default(), NAMES[target], x),
+                        None => return Expect::Fail,
+                    }
+                }
+            }
+        }
+    }
+    if tie {
+        return Expect::DontCare;
+    }
+    Expect::Value(out)
+}
+
+fn close(exact: Q, got: Q, dp: Option<u32>) -> bool {
+    let diff = exact.abs_diff_f64(got);
+    let slack = exact.to_f64().abs() * 1e-13 + 1e-20;
+    match dp {
+        None => diff <= slack,
+        Some(dp) => {
+            if got.round_dp(dp).0 != got {
+                return false;
+            }
+            diff <= 0.5 * 10f64.powi(-(dp as i32)) + slack
+        }
+    }
+}
+
+fn compare(exp: &Balances, got: &Balances, target: usize, dp: Option<u32>) -> Result<(), String> {
+    let accts: std::collections::BTreeSet<&String> = exp.keys().chain(got.keys()).collect();
+    for a in accts {
+        let e = exp.get(a).cloned().unwrap_or_default();
+        let g = got.get(a).cloned().unwrap_or_default();
+        for (c, v) in &g {
+            if c != NAMES[target] && !v.is_zero() {
+                return Err(format!("account {} still shows {} {} (not converted into {})", a, v, c, NAMES[target]));
+            }
+        }
+        let ev = e.get(NAMES[target]).copied().unwrap_or(Q::ZERO);
+        let gv = g.get(NAMES[target]).copied().unwrap_or(Q::ZERO);
+        if !close(ev, gv, dp) {
+            return Err(format!("account {}: expected {} {} got {} {}", a, ev, NAMES[target], gv, NAMES[target]));
+        }
+    }
+    Ok(())
+}
+
+fn judge(tprec: Option<u32>, seq: &[&T], queries: &mut u64, must: &mut u64) -> Outcome {
+    let text1 = render(tprec, seq, 1);
+    let text3 = render(tprec, seq, 3);
+    let strategies = [Strat::UpToDate(D1), Strat::UpToDate(D2), Strat::UpToDate(D3 + 1), Strat::Historical];
+    let mut classes = std::collections::BTreeSet::new();
+    for (mult, text) in [(1i64, &text1), (3i64, &text3)] {
+        let r = oka::with_ledger(&[(oka::ROOT, text.as_str())], oka::ROOT, None, |r| {
+            let (l, ctx) = match r {
+                Ok(x) => x,
+                Err(e) => return Some(Outcome::violation(format!("accepted-ledger-rejected/{}", e.variant), e.rendered)),
+            };
+            for target in 0..3 {
+                let tc = ctx.commodity(NAMES[target]).expect("declared commodity");
+                for strat in strategies {
+                    for range in ranges() {
+                        *queries += 1;
+                        let q = BalanceQuery {
+                            conversion: Some(Conversion {
+                                strategy: match strat {
+                                    Strat::Historical => ConversionStrategy::Historical,
+                                    Strat::UpToDate(n) => ConversionStrategy::UpToDate { now: day(n) },
+                                },
+                                target: tc,
+                            }),
+                            date_range: DateRange { start: range.0.map(day), end: range.1.map(day) },
+                        };
+                        let got = l.balance(ctx, &q).map(|b| oka::balance_to_map(&b)).map_err(|e| e.to_string());
+                        let exp = reference(seq, mult, target, strat, range);
+                        let what = format!("amounts x{}: balance -X {} {:?} range {:?}", mult, NAMES[target], strat, range);
+                        let dp = if target == 2 { tprec } else { None };
+                        let kind = if matches!(strat, Strat::Historical) { "historical" } else { "up-to-date" };
+                        match (&exp, &got) {
+                            (Expect::DontCare, _) => {
+                                classes.insert("tie-dontcare");
+                            }
+                            (Expect::Fail, Err(_)) => {
+                                *must += 1;
+                                classes.insert("fails-without-rate");
+                            }
+                            (Expect::Fail, Ok(g)) => return Some(Outcome::violation(format!("{}/converted-although-a-rate-is-missing", kind), format!("{}: some non-zero amount has no rate into {}, but the report succeeded: {:?}", what, NAMES[target], g))),
+                            (Expect::Value(e), Err(er)) => return Some(Outcome::violation(format!("{}/failed-although-all-rates-exist", kind), format!("{}: expected {:?}, got error {}", what, e, er))),
+                            (Expect::Value(e), Ok(g)) => {
+                                *must += 1;
+                                classes.insert("converted");
+                                if let Err(m) = compare(e, g, target, dp) {
+                                    let lin = if mult == 3 { "/scaled-x3" } else { "" };
+                                    return Some(Outcome::violation(format!("{}/converted-value-differs{}{}", kind, if dp.is_some() { "/with-target-precision" } else { "" }, lin), format!("{}: {}\nexpected {}\ngot {}", what, m, show(e), show(g))));
+                                }
+                            }
+                        }
+                    }
+                }
+            }
+            None
+        });
+        if let Some(o) = r {
+            return o;
+        }
+    }
+    Outcome::pass(format!("ok/txns{}/{}", seq.len(), classes.into_iter().collect::<Vec<_>>().join("+")))
+}
+
+fn show(b: &Balances) -> String {
+    b.iter().map(|(a, m)| format!("{}: {}", a, qmap_show(m))).collect::<Vec<_>>().join("; ")
+}
+
+fn run(ctx: &mut Ctx) {
+    let alpha = alphabet();
+    let n = alpha.len() as u64;
+    let maxlen = ctx.tier.pick(3u32, 4u32);
+    for tprec in [None, Some(2u32), Some(0u32)] {
+        for len in 1..=maxlen {
+            for k in 0..n.pow(len) {
+                if !ctx.next_is_mine() {
+                    ctx.skip_cases(1);
+                    continue;
+                }
+                let mut idx = vec![];
+                let mut x = k;
+                for _ in 0..len {
+                    idx.push((x % n) as usize);
+                    x /= n;
+                }
+                let seq: Vec<&T> = idx.iter().map(|i| &alpha[*i]).collect();
+                let (mut q, mut m) = (0u64, 0u64);
+                ctx.case(|| format!("[T precision {:?}]\n{}", tprec, render(tprec, &seq, 1)), || judge(tprec, &seq, &mut q, &mut m));
+                ctx.count("transitions", q);
+                ctx.count("validated", m);
+                ctx.count("states", 1);
+            }
+        }
+    }
+    let _: QMap = QMap::new();
+}
